@@ -1,4 +1,5 @@
 import GroupbyVerif.Props.C04
+import GroupbyVerif.Lemmas.Margins
 
 /-!
 # C14 — Margins and cross-tabulation totals equal the aggregate of what they summarise
@@ -84,10 +85,6 @@ theorem margin_extremum_eq_direct (kn : Kernel) (k : Kind) (hk : k.Supported) (g
   have := hm.merge_blocks_from_empty groups hwf
   simpa [runRed] using this
 
-/-- **mean margins**: total sum over total count — NOT the mean of the group means -/
-theorem mean_margin_is_sum_over_count (sums counts : List Int) :
-    (sums.sum, counts.sum) = (sums.sum, counts.sum) := rfl
-
 /-- the mean-of-means trap: groups {1} and {3, 5, 7}: mean of means = 3, true mean = 4 -/
 example : ((1 : Rat) / 1 + (3 + 5 + 7) / 3) / 2 = 3 ∧ ((1 + (3 + 5 + 7) : Rat)) / (1 + 3) = 4 := by
   constructor <;> decide +kernel
@@ -116,5 +113,247 @@ theorem crosstab_margin_eq_oneway (rows : List ((κ × κ) × Int)) (r : κ) (co
   simp [List.map_map, Function.comp_def]
 
 example : gsum [((1 : Nat), (5 : Int)), (2, 7), (1, -2)] 1 = 3 := by decide
+
+/-! ## `add_row_margin` end to end
+
+`Model/Margins.lean` is the executable model of the recursive function (tied to the source by the
+driver op `margins`).  A label with margins is a pattern, `none` = `'All'`. -/
+
+theorem sum_laws : AggLaws (fun a b : Int => a + b) 0 :=
+  ⟨fun a b c => Int.add_assoc a b c, fun a b => Int.add_comm a b, fun a => Int.add_zero a⟩
+
+theorem omax_laws : AggLaws omax none := by
+  refine ⟨?_, ?_, ?_⟩
+  · intro a b c
+    cases a <;> cases b <;> cases c <;> simp only [omax] <;> congr 1 <;> split <;> split <;> (try split) <;> omega
+  · intro a b
+    cases a <;> cases b <;> simp only [omax] <;> congr 1 <;> split <;> split <;> omega
+  · intro a; cases a <;> rfl
+
+theorem omin_laws : AggLaws omin none := by
+  refine ⟨?_, ?_, ?_⟩
+  · intro a b c
+    cases a <;> cases b <;> cases c <;> simp only [omin] <;> congr 1 <;> split <;> split <;> (try split) <;> omega
+  · intro a b
+    cases a <;> cases b <;> simp only [omin] <;> congr 1 <;> split <;> split <;> omega
+  · intro a; cases a <;> rfl
+
+/-- the per-group results of a reduction over raw rows (label tuple, value) -/
+def perGroup {M : Type} (op : M → M → M) (e : M) (rows : List (List κ × M)) : List (List κ × M) :=
+  (dedup (rows.map (·.1))).map fun l => (l, aggM op e ((rows.filter fun r => r.1 = l).map (·.2)))
+
+theorem perGroup_nodup {M : Type} (op : M → M → M) (e : M) (rows : List (List κ × M)) :
+    ((perGroup op e rows).map (·.1)).Nodup := by
+  have : (perGroup op e rows).map (·.1) = dedup (rows.map (·.1)) := by
+    simp [perGroup, List.map_map, Function.comp_def]
+  rw [this]; exact nodup_dedup _
+
+theorem perGroup_length {M : Type} (op : M → M → M) (e : M) (rows : List (List κ × M)) (n : Nat)
+    (hlen : ∀ r ∈ rows, r.1.length = n) : ∀ r ∈ perGroup op e rows, r.1.length = n := by
+  intro r hr
+  simp only [perGroup, List.mem_map] at hr
+  obtain ⟨l, hl, rfl⟩ := hr
+  rw [mem_dedup, List.mem_map] at hl
+  obtain ⟨s, hs, rfl⟩ := hl
+  exact hlen s hs
+
+/-- what a pattern summarises in the table of per-group results is what it summarises in the raw rows -/
+theorem directAgg_perGroup {M : Type} {op : M → M → M} {e : M} (h : AggLaws op e) (rows : List (List κ × M))
+    (p : Pat κ) : directAgg op e (perGroup op e rows) p = directAgg op e rows p := by
+  unfold directAgg perGroup
+  rw [List.filter_map, List.map_map]
+  have hnd : ((dedup (rows.map (·.1))).filter ((fun r : List κ × M => matchesPat p r.1) ∘ fun l =>
+      (l, aggM op e ((rows.filter fun r => r.1 = l).map (·.2))))).Nodup :=
+    List.Nodup.sublist List.filter_sublist (nodup_dedup _)
+  have hpart := aggM_partition h (fun r : List κ × M => r.1) (·.2) _ hnd rows
+  simp only [Function.comp_def] at hpart ⊢
+  rw [hpart]
+  congr 2
+  apply List.filter_congr
+  intro r hr
+  have hmem : r.1 ∈ dedup (rows.map (·.1)) := by
+    rw [mem_dedup]; exact List.mem_map_of_mem (f := (·.1)) hr
+  simp [List.mem_filter, hmem]
+
+/-- **margins equal the aggregate of what they summarise** (any commutative-monoid aggregation: sum /
+count / size with `+`, null-skipping max / min): every row `add_row_margin` returns for the table
+of per-group results — ordinary or with `'All'` at any requested levels — holds the aggregate of
+exactly the raw rows whose label matches the pattern -/
+theorem margins_eq_aggregate_of_rows {M : Type} {op : M → M → M} {e : M} (h : AggLaws op e)
+    (n : Nat) (hn : 0 < n) (levels : Option (List Nat)) (hlv : ∀ lv, levels = some lv → ∀ l ∈ lv, l < n)
+    (rows : List (List κ × M)) (hlen : ∀ r ∈ rows, r.1.length = n)
+    (r : Pat κ × M) (hr : r ∈ addRowMargin op e n levels (perGroup op e rows)) :
+    r.2 = directAgg op e rows r.1 := by
+  rw [← directAgg_perGroup h]
+  exact (addRowMargin_sound h n levels _ hn (perGroup_length op e rows n hlen) (perGroup_nodup op e rows) hlv r hr).2
+
+/-- instances: sum (also count and size, which are sums of per-group counts), max, min -/
+theorem sum_margins (n : Nat) (hn : 0 < n) (levels : Option (List Nat)) (hlv : ∀ lv, levels = some lv → ∀ l ∈ lv, l < n)
+    (rows : List (List κ × Int)) (hlen : ∀ r ∈ rows, r.1.length = n)
+    (r : Pat κ × Int) (hr : r ∈ addRowMargin (fun a b : Int => a + b) 0 n levels (perGroup (fun a b : Int => a + b) 0 rows)) :
+    r.2 = ((rows.filter fun s => matchesPat r.1 s.1).map (·.2)).sum := by
+  rw [margins_eq_aggregate_of_rows sum_laws n hn levels hlv rows hlen r hr]
+  simp only [directAgg, aggM]
+  generalize ((rows.filter fun s => matchesPat r.1 s.1).map (·.2)) = xs
+  induction xs with
+  | nil => rfl
+  | cons x xs ih => simp [ih]
+
+theorem max_margins (n : Nat) (hn : 0 < n) (levels : Option (List Nat)) (hlv : ∀ lv, levels = some lv → ∀ l ∈ lv, l < n)
+    (rows : List (List κ × Option Int)) (hlen : ∀ r ∈ rows, r.1.length = n)
+    (r : Pat κ × Option Int) (hr : r ∈ addRowMargin omax none n levels (perGroup omax none rows)) :
+    r.2 = directAgg omax none rows r.1 :=
+  margins_eq_aggregate_of_rows omax_laws n hn levels hlv rows hlen r hr
+
+theorem min_margins (n : Nat) (hn : 0 < n) (levels : Option (List Nat)) (hlv : ∀ lv, levels = some lv → ∀ l ∈ lv, l < n)
+    (rows : List (List κ × Option Int)) (hlen : ∀ r ∈ rows, r.1.length = n)
+    (r : Pat κ × Option Int) (hr : r ∈ addRowMargin omin none n levels (perGroup omin none rows)) :
+    r.2 = directAgg omin none rows r.1 :=
+  margins_eq_aggregate_of_rows omin_laws n hn levels hlv rows hlen r hr
+
+/-- the ordinary rows are returned unchanged -/
+theorem ordinary_rows_unchanged {M : Type} (op : M → M → M) (e : M) (n : Nat) (hn : 0 < n) (levels : Option (List Nat))
+    (hlv : ∀ lv, levels = some lv → ∀ l ∈ lv, l < n)
+    (data : List (List κ × M)) (hlen : ∀ r ∈ data, r.1.length = n) (s : List κ × M) (hs : s ∈ data) :
+    s.1.map some ∈ (addRowMargin op e n levels data).map (·.1) := by
+  apply addRowMargin_complete n levels data hn hlen hlv
+  · exact ⟨s, hs, by simp [matchesPat_map_some]⟩
+  · intro _ l _ hall
+    rw [List.getElem?_map] at hall
+    cases hsl : s.1[l]? <;> simp [hsl] at hall
+
+/-- **`'All'` only where requested, and every requested total is there**: for a table with at least two
+levels the patterns of the output are exactly those that summarise at least one row and have `'All'`
+only at requested levels -/
+theorem margin_labels_exact {M : Type} (op : M → M → M) (e : M) (n : Nat) (levels : Option (List Nat))
+    (hlv : ∀ lv, levels = some lv → ∀ l ∈ lv, l < n + 2)
+    (data : List (List κ × M)) (hne : data ≠ []) (hlen : ∀ r ∈ data, r.1.length = n + 2) (p : Pat κ) :
+    p ∈ (addRowMargin op e (n + 2) levels data).map (·.1) ↔
+      (∃ s ∈ data, matchesPat p s.1 = true) ∧
+        ∀ l, l < n + 2 → p[l]? = some none → l ∈ levels.getD (List.range (n + 2)) := by
+  constructor
+  · intro hp
+    obtain ⟨r, hr, rfl⟩ := List.mem_map.mp hp
+    exact ⟨addRowMargin_witness (n + 2) levels data (by omega) hne hlen hlv r hr,
+      fun l hl hall => addRowMargin_levels n levels data r hr l hl hall⟩
+  · rintro ⟨hw, hreq⟩
+    exact addRowMargin_complete (n + 2) levels data (by omega) hlen hlv p hw (fun _ => hreq)
+
+/-- pasting summaries over each other (`out.loc[summary.index] = summary`) is harmless: two output rows
+with the same label hold the same value -/
+theorem same_label_same_value {M : Type} {op : M → M → M} {e : M} (h : AggLaws op e)
+    (n : Nat) (hn : 0 < n) (levels : Option (List Nat)) (hlv : ∀ lv, levels = some lv → ∀ l ∈ lv, l < n)
+    (data : List (List κ × M)) (hlen : ∀ r ∈ data, r.1.length = n) (hnd : (data.map (·.1)).Nodup)
+    (r r' : Pat κ × M) (hr : r ∈ addRowMargin op e n levels data) (hr' : r' ∈ addRowMargin op e n levels data)
+    (hp : r.1 = r'.1) : r.2 = r'.2 := by
+  rw [(addRowMargin_sound h n levels data hn hlen hnd hlv r hr).2,
+    (addRowMargin_sound h n levels data hn hlen hnd hlv r' hr').2, hp]
+
+theorem lookupP_mem {α β : Type} [DecidableEq α] (a : α) : ∀ (l : List (α × β)), a ∈ l.map (·.1) →
+    ∃ v, lookupP a l = some v ∧ (a, v) ∈ l
+  | [], h => by simp at h
+  | r :: rs, h => by
+    by_cases hr : r.1 = a
+    · exact ⟨r.2, by simp [lookupP, hr], by rw [← hr]; exact List.mem_cons_self ..⟩
+    · have : a ∈ rs.map (·.1) := by
+        simp only [List.map_cons, List.mem_cons] at h
+        rcases h with h | h
+        · exact absurd h.symm hr
+        · exact h
+      obtain ⟨v, hv, hm⟩ := lookupP_mem a rs this
+      exact ⟨v, by simp [lookupP, hr, hv], List.mem_cons_of_mem _ hm⟩
+
+/-- **mean margins**: a margin row of a mean is (sum of the summarised groups' sums) over (sum of their
+counts) — the total sum over the total count, NOT the mean of the group means -/
+theorem mean_margin_is_sum_over_count (n : Nat) (hn : 0 < n) (levels : Option (List Nat))
+    (hlv : ∀ lv, levels = some lv → ∀ l ∈ lv, l < n)
+    (data : List (List κ × (Int × Int))) (hne : data ≠ []) (hlen : ∀ r ∈ data, r.1.length = n)
+    (hnd : (data.map (·.1)).Nodup)
+    (r : Pat κ × Int × Option Int) (hr : r ∈ meanMargins n levels data) :
+    r.2.1 = directAgg (fun a b : Int => a + b) 0 (data.map fun d => (d.1, d.2.1)) r.1 ∧
+    r.2.2 = some (directAgg (fun a b : Int => a + b) 0 (data.map fun d => (d.1, d.2.2)) r.1) := by
+  simp only [meanMargins, List.mem_map] at hr
+  obtain ⟨q, hq, rfl⟩ := hr
+  have hlenS : ∀ r ∈ data.map (fun d => (d.1, d.2.1)), r.1.length = n := by
+    intro r hr; obtain ⟨d, hd, rfl⟩ := List.mem_map.mp hr; exact hlen d hd
+  have hlenC : ∀ r ∈ data.map (fun d => (d.1, d.2.2)), r.1.length = n := by
+    intro r hr; obtain ⟨d, hd, rfl⟩ := List.mem_map.mp hr; exact hlen d hd
+  have hndS : ((data.map fun d => (d.1, d.2.1)).map (·.1)).Nodup := by simpa [List.map_map, Function.comp_def] using hnd
+  have hndC : ((data.map fun d => (d.1, d.2.2)).map (·.1)).Nodup := by simpa [List.map_map, Function.comp_def] using hnd
+  have hS := addRowMargin_sound sum_laws n levels _ hn hlenS hndS hlv q hq
+  refine ⟨hS.2, ?_⟩
+  -- the same label is a row of the count margins
+  have hneS : (data.map fun d => (d.1, d.2.1)) ≠ [] := by simpa using hne
+  obtain ⟨s, hs, hm⟩ := addRowMargin_witness n levels _ hn hneS hlenS hlv q hq
+  obtain ⟨d, hd, rfl⟩ := List.mem_map.mp hs
+  have hqC : q.1 ∈ (addRowMargin (fun a b : Int => a + b) 0 n levels (data.map fun d => (d.1, d.2.2))).map (·.1) := by
+    apply addRowMargin_complete n levels _ hn hlenC hlv q.1
+    · exact ⟨(d.1, d.2.2), List.mem_map.mpr ⟨d, hd, rfl⟩, hm⟩
+    · intro h2 l hl hall
+      obtain ⟨m, rfl⟩ : ∃ m, n = m + 2 := ⟨n - 2, by omega⟩
+      exact addRowMargin_levels m levels _ q hq l hl hall
+  obtain ⟨v, hv, hmem⟩ := lookupP_mem q.1 _ hqC
+  have hC := (addRowMargin_sound sum_laws n levels _ hn hlenC hndC hlv (q.1, v) hmem).2
+  simp only at hC ⊢
+  rw [hv, hC]
+
+/-! ### cross-tabulation: which levels get totals
+
+`crosstab(index, columns, margins=...)` groups by `index + columns` and asks `add_row_margin` for the
+row-key levels (`margins in (True, "row")`) and / or the column-key levels (`True`, `"column"`), then
+unstacks the column levels.  A cell is the output row whose pattern is (row label ++ column label). -/
+
+inductive CtMargins where
+  | off | both | row | column
+deriving DecidableEq, Repr
+
+def crosstabLevels (n0 n1 : Nat) : CtMargins → List Nat
+  | .off => []
+  | .both => List.range n0 ++ (List.range n1).map (· + n0)
+  | .row => List.range n0
+  | .column => (List.range n1).map (· + n0)
+
+theorem crosstabLevels_lt (n0 n1 : Nat) (m : CtMargins) : ∀ l ∈ crosstabLevels n0 n1 m, l < n0 + n1 := by
+  intro l hl
+  cases m <;> simp only [crosstabLevels, List.mem_append, List.mem_range, List.mem_map, List.not_mem_nil] at hl
+  · rcases hl with hl | ⟨a, ha, rfl⟩ <;> omega
+  · omega
+  · obtain ⟨a, ha, rfl⟩ := hl; omega
+
+/-- **cross-tab totals**: every cell and every total of the table holds the aggregate of the rows its
+(row label, column label) pattern summarises; a total over a row key appears only with
+`margins in (True, "row")`, a total over a column key only with `margins in (True, "column")` -/
+theorem crosstab_cells_and_totals {M : Type} {op : M → M → M} {e : M} (h : AggLaws op e) (n0 n1 : Nat)
+    (hn : 2 ≤ n0 + n1) (m : CtMargins) (rows : List (List κ × M)) (hlen : ∀ r ∈ rows, r.1.length = n0 + n1)
+    (r : Pat κ × M) (hr : r ∈ addRowMargin op e (n0 + n1) (some (crosstabLevels n0 n1 m)) (perGroup op e rows)) :
+    r.2 = directAgg op e rows r.1 ∧
+    (∀ l, l < n0 → r.1[l]? = some none → m = .both ∨ m = .row) ∧
+    (∀ l, n0 ≤ l → l < n0 + n1 → r.1[l]? = some none → m = .both ∨ m = .column) := by
+  have hlv : ∀ lv, some (crosstabLevels n0 n1 m) = some lv → ∀ l ∈ lv, l < n0 + n1 := by
+    intro lv hlv; cases hlv; exact crosstabLevels_lt n0 n1 m
+  refine ⟨margins_eq_aggregate_of_rows h (n0 + n1) (by omega) _ hlv rows hlen r hr, ?_, ?_⟩
+  · intro l hl hall
+    obtain ⟨k, hk⟩ : ∃ k, n0 + n1 = k + 2 := ⟨n0 + n1 - 2, by omega⟩
+    rw [hk] at hr
+    have := addRowMargin_levels k _ _ r hr l (by omega) hall
+    cases m <;> simp only [Option.getD_some, crosstabLevels, List.mem_append, List.mem_range, List.mem_map,
+      List.not_mem_nil] at this
+    · exact Or.inl rfl
+    · exact Or.inr rfl
+    · obtain ⟨a, _, rfl⟩ := this; omega
+  · intro l hl0 hl hall
+    obtain ⟨k, hk⟩ : ∃ k, n0 + n1 = k + 2 := ⟨n0 + n1 - 2, by omega⟩
+    rw [hk] at hr
+    have := addRowMargin_levels k _ _ r hr l (by omega) hall
+    cases m <;> simp only [Option.getD_some, crosstabLevels, List.mem_append, List.mem_range, List.mem_map,
+      List.not_mem_nil] at this
+    · exact Or.inl rfl
+    · omega
+    · exact Or.inr rfl
+
+/-- non-vacuity: a sparse two-level table, margins at both levels -/
+example : lastWins (addRowMargin (fun a b : Int => a + b) 0 2 none [([1, 1], 5), ([1, 2], 7), ([2, 1], 1)])
+    = [([some 1, some 1], 5), ([some 1, some 2], 7), ([some 2, some 1], 1), ([none, some 1], 6), ([none, some 2], 7),
+       ([some 1, none], 12), ([some 2, none], 1), ([none, none], 13)] := by decide +kernel
 
 end GV.C14
